@@ -290,7 +290,7 @@ pub fn run(ctx: &mut Ctx) -> Result<(), Violation> {
     ctx.rule = "cases = operation histories over one BDDEnv<usize> (vocabulary: const var not and or implies eq xor nor nand ite exists all exists-of-one-variable aln amn exn count_leq/lt/geq/gt/eq fp model retain clean infer; operands are indices of ALL earlier results, ids 0..6) decoded from a proptest byte tape, \
                 plus histories of formula evaluations sharing one BDDEnv<NamedSymbol> under a common ordering. After every step: (a) result table == table model of the step; (b) result `==` the result of the same operation on operands re-interned in a brand-new environment; \
                 (c) every earlier handle keeps its structure and table; (d) the unique table contains both leaves, maps each structure to itself, and every sub-diagram reachable from any handle is that very allocation (Rc::ptr_eq); (e) DOT export declares exactly the structurally distinct tests and references only declared ids. \
-                Non-trivial = history of >= 10 operations in which a handle older than 5 steps is used again; distinct by operation list."
+                A second mode lets the caller drop every handle older than k (1..4) steps, with extra `clean` calls, rebuilding dropped operands from their truth tables in the same environment. Thorough adds histories of up to 300 operations and the libFuzzer target `history`. Non-trivial = history of >= 10 operations in which a handle older than 5 steps is used again; distinct by operation list."
         .to_string();
     ctx.assume("all handles given to an environment were produced by that environment (the library's precondition)");
     ctx.assume("formulas sharing an environment use one common ordering covering all their names (ids must mean the same name)");
